@@ -181,7 +181,7 @@ def run(ctx):
                        'no hash collisions']
     drv = common.Driver()
     try:
-        for i in range(150 if ctx.tier == 'quick' else 4000):
+        for i in range(300 if ctx.tier == 'quick' else 4000):
             one_case(ctx, drv)
     finally:
         drv.close()
